@@ -1,0 +1,196 @@
+//go:build verif
+
+package db
+
+// Contracts for property C18 (resync equals evaluating the new sync function from scratch).
+// Comment-only; read by /verif/engine.
+//
+// Reused from other properties (one contract per function): Document.updateChannels and
+// UserAccessMap.updateAccess (zz_verif_c03.go: "afterwards the active channels / the grants are exactly the
+// sync function output, every difference is reported"), SyncData.GetRevTreeID (zz_verif_c04.go, pure),
+// RevTree.forEachLeaf (zz_verif_c04.go: the callback runs exactly once per leaf).
+
+//@ props C18
+
+// ---- is the document known to Sync Gateway at all ----
+
+//@ func SyncData.HasValidSyncData
+//@   pure
+
+// ---- small helpers of the resync step: honest frames, so that they do not havoc the step's bookkeeping ----
+
+// UpdateExpiry only rewrites the document's expiry field (CbsExpiryToTime is arithmetic on its argument).
+//@ func Document.UpdateExpiry
+//@   modifies doc.Expiry
+//@   ensures[cleared] expiry == 0 ==> doc.Expiry == nil
+//@   ensures[set]     expiry != 0 ==> doc.Expiry != nil
+
+// SetCrc32cUserXattrHash only rewrites the stored hash of the user xattr.
+//@ func Document.SetCrc32cUserXattrHash
+//@   modifies doc.SyncData.Crc32cUserXattr
+
+// ---- what the sync function says: TRUSTED vocabulary ----
+// The sync function (JavaScript, run by channels.ChannelMapper) is deterministic: its verdict and its output for a
+// revision are functions of the document and the revision evaluated. c18Rejects = it rejected the revision (or threw,
+// or timed out); c18Chan / c18Access / c18Role = its channel() / access() / role() output.
+//@ fn c18Rejects(doc *Document, revID string) bool
+//@ fn c18Chan(doc *Document, revID string, c string) bool
+//@ fn c18Access(doc *Document, revID string, u string, c string) bool
+//@ fn c18Role(doc *Document, revID string, u string, r string) bool
+
+// TRUSTED: getChannelsAndAccess runs the sync function on the given revision. Assumed: (a) determinism, as above;
+// (b) the three result maps are built for this call (SetFromArray / compileAccessMap / SetOf allocate them) and so
+// alias nothing the caller holds; (c) frame: besides statistics counters it writes what loading the parent
+// revision's body writes (getAncestorJSON -> getRevisionBodyJSON: RevInfo.Body lazily, doc._rawBody) and the
+// user's lazily filled role cache (MakeUserCtx); nil user in resync. The role() output is returned even when
+// the revision is rejected (output.Roles is assigned before output.Rejection is looked at), hence no guard on [roles].
+//@ func DatabaseCollectionWithUser.getChannelsAndAccess
+//@   trusted
+//@   modifies RevInfo.Body, doc._rawBody, unbox(col.user, *auth.userImpl).roles, unbox(col.user, *auth.userImpl).deletedRoles
+//@   ensures[verdict]  isNilErr(err) <==> !c18Rejects(doc, revID)
+//@   ensures[channels] isNilErr(err) ==> (forall c string :: {c in result} (c in result) <==> c18Chan(doc, revID, c))
+//@   ensures[access]   isNilErr(err) ==> (forall u string, c string :: {newGrants(access, u, c)} newGrants(access, u, c) <==> c18Access(doc, revID, u, c))
+//@   ensures[roles]    forall u string, r string :: {newGrants(roles, u, r)} newGrants(roles, u, r) <==> c18Role(doc, revID, u, r)
+//@   ensures[fresh]    (result == nil || !old(allocated(now(result)))) && (access == nil || !old(allocated(now(access)))) && (roles == nil || !old(allocated(now(roles))))
+
+// TRUSTED, frame only: GetMetaMap builds two fresh maps from doc.rawUserXattr (JSON-decoded into a local); it
+// writes nothing that existed before the call.
+//@ func Document.GetMetaMap
+//@   trusted
+
+// the leaf's stored channel set is (as a set) what it was when the step started
+//@ pred c18LeafSame(rev *RevInfo) bool
+//@   is forall c string :: {c in rev.Channels} {old(c in rev.Channels)} (c in rev.Channels) <==> old(c in rev.Channels)
+
+// ---- one step of the resync of a document: the callback getResyncedDocument hands to forEachLeaf ----
+//
+// Preconditions = what forEachLeaf guarantees for each callback invocation (zz_verif_c04.go, clause [leaf]: the
+// argument is the tree's own node of a leaf) plus well-formedness of the freshly unmarshalled document. They are NOT
+// checked at the forEachLeaf call (the engine has no rule instantiating an iterator's abstract callback with a
+// closure contract): assumption GLUE-1. [no-regen]: the state clauses are proved for the ordinary resync
+// (regenerate_sequences=false); with regeneration assignSequence (`modifies *`, C11) intervenes and forceUpdate
+// forces the write anyway.
+// "sync output" = results of the step's single getChannelsAndAccess call, with the code's own normalisation "a
+// revision the sync function rejects is in no channel and grants nothing".
+//  Data flow (every path):
+//   winner-only       channels/access/role grants of the DOCUMENT are recomputed for the winning leaf only
+//   winner-channels   ... from the sync output's channels
+//   winner-access     ... from the sync output's access() grants
+//   winner-roles      ... from the sync output's role() grants, nothing when the revision is rejected
+//                     FAILS (candidate finding): `roles` is not cleared on rejection, unlike `channels` and `access`
+//   winner-all-three  the three updates always come together
+//   changed-sum       the step's `changed` is the number of reported differences of the three updates
+//  State:
+//   winner-active     right after updateChannels the winning revision's active channels are exactly what the new sync
+//                     function says (none when it rejects the revision); nothing later in the step writes the channel map
+//   idem-channels(-rejected)  "running resync again changes nothing", channel part: if the active channels already
+//                     are what the sync function says, updateChannels reports no changed channel
+//   leaf-channels / leaf-F / leaf-rejected   a non-winning leaf's stored channel set becomes what the new sync
+//                     function says for that leaf (nil when rejected)
+//   leaf-uncounted    ... and that step leaves `changed` and `forceUpdate` as they were
+//   leaf-change-counted  property clause "a cancelled write loses nothing: every leaf whose channel set the step
+//                     rewrites to a DIFFERENT set makes the document get written". FAILS (candidate finding F6), as
+//                     [leaf-uncounted] shows: winner 2-b unchanged, leaf 2-a {L} -> {L2}, changed stays 0 -> ErrUpdateCancel.
+//  Not stated (engine): the grants part of the winner (doc.Access / doc.RoleAccess equal the sync output, and its
+//  idempotence): updateAccess is called on the field addresses &doc.Access / &doc.RoleAccess, which the engine passes as
+//  opaque pointers, so C03's [exact] / [keys-cover] / [idempotent] (verified there) cannot be related to doc.Access here;
+//  updateAccess is therefore left out of only-contracts (arbitrary heap effect) and only its data flow is checked.
+//@ func DatabaseCollectionWithUser.getResyncedDocument$1
+//@   requires db != nil && db.DatabaseCollection != nil && colUserWF(db) && doc != nil && treeWF(doc.History)
+//@   requires[leaf] rev != nil && (rev.ID in doc.History) && leafOf(doc.History, rev.ID) && doc.History[rev.ID] == rev
+//@   requires[no-regen] !regenerateSequences
+//@   requires[touch]    forall c string :: {c in doc.Channels} chActive(doc.Channels, c) || !chActive(doc.Channels, c)   // engine workaround, a tautology: names the channel-map components at entry so that they survive the join with the (infeasible) assignSequence path
+//@   modifies *
+//@   only-contracts get1xRevFromDoc, Unmarshal, GetMetaMap, getChannelsAndAccess, updateChannels, UpdateExpiry
+//@   before[winner-only]     call updateChannels#1 rev.ID == doc.SyncData.GetRevTreeID()
+//@   before[winner-channels] call updateChannels#1 $0 == doc && $2 == ite(isNilErr(callres(getChannelsAndAccess, 1, 5)), callres(getChannelsAndAccess, 1, 0), nil)
+//@   before[winner-access]   call updateAccess#1 $2 == doc && $3 == ite(isNilErr(callres(getChannelsAndAccess, 1, 5)), callres(getChannelsAndAccess, 1, 1), nil)
+//@   before[winner-roles]    call updateAccess#2 $2 == doc && $3 == ite(isNilErr(callres(getChannelsAndAccess, 1, 5)), callres(getChannelsAndAccess, 1, 2), nil)
+//@   after[winner-active]    call updateChannels#1 forall c string :: {chActive(doc.Channels, c)} chActive(doc.Channels, c) <==> !c18Rejects(doc, rev.ID) && c18Chan(doc, rev.ID, c)
+//@   after[idem-channels]    call updateChannels#1 isNilErr($r1) && !c18Rejects(doc, rev.ID) && (forall c string :: {old(c in doc.Channels)} {c18Chan(doc, rev.ID, c)} old(chActive(doc.Channels, c)) <==> c18Chan(doc, rev.ID, c)) ==> (forall c string :: {c in $r0} !(c in $r0))
+//@   after[idem-channels-rejected] call updateChannels#1 isNilErr($r1) && c18Rejects(doc, rev.ID) && (forall c string :: {old(c in doc.Channels)} !old(chActive(doc.Channels, c))) ==> (forall c string :: {c in $r0} !(c in $r0))
+//@   ensures[winner-all-three] called(updateChannels, 1) ==> called(updateAccess, 1) && called(updateAccess, 2)
+//@   ensures[changed-sum]      called(updateChannels, 1) ==> changed == len(callres(updateAccess, 1, 0)) + len(callres(updateAccess, 2, 0)) + len(callres(updateChannels, 1, 0))
+//@   ensures[leaf-channels]    called(getChannelsAndAccess, 1) && !called(updateChannels, 1) ==> rev.ID != doc.SyncData.GetRevTreeID() && rev.Channels == ite(isNilErr(callres(getChannelsAndAccess, 1, 5)), callres(getChannelsAndAccess, 1, 0), nil)
+//@   ensures[leaf-F]           called(getChannelsAndAccess, 1) && !called(updateChannels, 1) && !c18Rejects(doc, rev.ID) ==> (forall c string :: {c in rev.Channels} (c in rev.Channels) <==> c18Chan(doc, rev.ID, c))
+//@   ensures[leaf-rejected]    called(getChannelsAndAccess, 1) && !called(updateChannels, 1) && c18Rejects(doc, rev.ID) ==> rev.Channels == nil
+//@   ensures[leaf-uncounted]   !called(updateChannels, 1) ==> changed == old(changed) && forceUpdate == old(forceUpdate)
+//@   ensures[leaf-change-counted] !called(updateChannels, 1) && !c18LeafSame(rev) ==> changed != 0 || forceUpdate
+
+// ---- the document-level decision ----
+//   unknown-doc-ignored   a document without valid sync metadata is never written
+//   leaves-of-this-doc    the step is run over the leaves of this document's own revision tree
+//   ok-or-cancel          the only outcomes are "write this" and "nothing to write"
+// Not expressible (engine): "cancelled exactly when changed == 0 && !forceUpdate" and "the document handed back is the
+// one passed in": `changed`, `forceUpdate` and `doc` are captured by the closure, and a captured local cannot be named
+// in its parent's contract. forEachLeaf is left out of only-contracts: the step's contract is `modifies *`, so the call
+// is an arbitrary heap change either way, and forEachLeaf's own preconditions concern its ghost bookkeeping only.
+//@ func DatabaseCollectionWithUser.getResyncedDocument
+//@   requires doc != nil
+//@   modifies *
+//@   only-contracts SetCrc32cUserXattrHash
+//@   ensures[unknown-doc-ignored]  !old(doc.SyncData.HasValidSyncData()) ==> err == box(base.ErrUpdateCancel) && updatedDoc == nil
+//@   before[leaves-of-this-doc]   call forEachLeaf#1 $0 == doc.History
+//@   ensures[ok-or-cancel]         isNilErr(err) || err == box(base.ErrUpdateCancel)
+
+// ---- the write callback of ResyncDocument (run, possibly repeatedly, by the storage layer's CAS loop) ----
+//   deleted-doc-cancel     a document deleted since the feed event is not resurrected
+//   resync-what-was-read   the sync function is re-run on the document just read under the CAS, not on an older copy
+//   cancel-surfaces        "nothing changed" (and every other error of the step) reaches the storage layer, which then writes nothing
+//   marshal-resynced       what is written is the re-synced document
+//   metadata-only          the body is never rewritten; only the sync and mou xattrs are
+//@ func DatabaseCollectionWithUser.ResyncDocument$1
+//@   modifies *
+//@   only-contracts NewMacroExpansionSpec
+//@   propagates unmarshalDocumentWithXattrs#1 getResyncedDocument#1 MarshalWithXattrs#1
+//@   before[resync-what-was-read] call getResyncedDocument#1 $2 == callres(unmarshalDocumentWithXattrs, 1, 0) && $3 == regenerateSequences
+//@   before[marshal-resynced]     call MarshalWithXattrs#1 $0 == callres(getResyncedDocument, 1, 0)
+//@   ensures[deleted-doc-cancel]  len(currentValue) == 0 ==> result1 == box(base.ErrUpdateCancel) && !called(unmarshalDocumentWithXattrs, 1)
+//@   ensures[cancel-surfaces]     called(getResyncedDocument, 1) && !isNilErr(callres(getResyncedDocument, 1, 2)) ==> result1 == callres(getResyncedDocument, 1, 2)
+//@   ensures[metadata-only]       isNilErr(result1) ==> result0.Doc == nil && !result0.IsTombstone && len(result0.XattrsToDelete) == 0
+//@   ensures[sync-xattr]          isNilErr(result1) ==> (base.SyncXattrName in result0.Xattrs) && result0.Xattrs[base.SyncXattrName] == callres(MarshalWithXattrs, 1, 1)
+
+// ---- after the documents: every principal's computed access is invalidated ----
+//
+// Ghost record of the principals for which the invalidation call was made.
+//@ ghost var c18InvalUsers set[string]
+//@ ghost var c18InvalRoles set[string]
+
+// TRUSTED, ghost bookkeeping only. The body of each helper is one call, authr.InvalidateRolesAndChannels(username,
+// collections, invalSeq) resp. authr.InvalidateChannels(rolename, false, collections, invalSeq) (both under contract in
+// auth/zz_verif_c11.go: the update of the principal's document is attempted); the ghost set records the name. The real heap
+// effects (a fresh Authenticator, the principal's document in the bucket) are invisible to invalidateAllPrincipals, which
+// only reads its two name slices. NOT assumed: that the invalidation succeeded -- its error is logged and dropped (see report).
+//@ func DatabaseContext.invalUserRolesAndChannels
+//@   trusted
+//@   modifies c18InvalUsers
+//@   ensures[recorded] c18InvalUsers == union(old(c18InvalUsers), single(username))
+//@ func DatabaseContext.invalRoleChannels
+//@   trusted
+//@   modifies c18InvalRoles
+//@   ensures[recorded] c18InvalRoles == union(old(c18InvalRoles), single(rolename))
+
+// invalidateAllPrincipals: every user name and every role name the principal query returned gets its invalidation
+// call, for the collections and the sequence of this resync run; a failing query surfaces.
+//@ func DatabaseContext.invalidateAllPrincipals
+//@   modifies *
+//@   propagates AllPrincipalIDs#1
+//@   before[user-args] call invalUserRolesAndChannels $3 == collectionNames && $4 == endSeq
+//@   before[role-args] call invalRoleChannels $3 == collectionNames && $4 == endSeq
+//@   ensures[users-invalidated] isNilErr(result) ==> (forall i int :: {users[i]} 0 <= i && i < len(users) ==> (users[i] in c18InvalUsers))
+//@   ensures[roles-invalidated] isNilErr(result) ==> (forall i int :: {roles[i]} 0 <= i && i < len(roles) ==> (roles[i] in c18InvalRoles))
+//@   loop 1 invariant[users-so-far] forall i int :: {users[i]} 0 <= i && i <= #index ==> (users[i] in c18InvalUsers)
+//@   loop 2 invariant[users-all]    forall i int :: {users[i]} 0 <= i && i < len(users) ==> (users[i] in c18InvalUsers)
+//@   loop 2 invariant[roles-so-far] forall i int :: {roles[i]} 0 <= i && i <= #index ==> (roles[i] in c18InvalRoles)
+
+// ---- "running resync again changes nothing", at the level of the two update functions ----
+// Grants: UserAccessMap.updateAccess (zz_verif_c03.go, tagged C18) has [exact] + [keys-cover] (after updateAccess(A) the
+// map records exactly A's grants and has a key for every user of A) and [idempotent] (on such a map updateAccess(A)
+// reports no user): the second run's len(changedUsers) is 0. Channels: the lemma below, and [idem-channels] of the step.
+
+// Second updateChannels(S) on the state a first updateChannels(S) left: the premises are clause [active] of the
+// first call and clause [changed-sound] of the second (zz_verif_c03.go, both verified against the code).
+//@ lemma c18_updateChannels_idempotent(m channels.ChannelMap, S base.Set, reported base.Set)
+//@   requires[first-call-active]  forall c string :: {chActive(m, c)} chActive(m, c) <==> (c in S)
+//@   requires[second-call-sound]  forall c string :: {c in reported} (c in reported) ==> chActive(m, c) != (c in S)
+//@   ensures[nothing-reported]    forall c string :: {c in reported} !(c in reported)
